@@ -151,6 +151,7 @@ CastVal(ty, a) ==
               (CASE a.t \in {"int", "uint"} -> (IF MulFits(4, a.i) THEN VDbl(4 * a.i) ELSE Undef)
                  [] a.t = "dbl" -> a
                  [] OTHER -> Undef)
+         [] ty \in {"TSource", "TSub"} -> (IF a.t = "ptr" THEN a ELSE Undef)      \* pointer up-cast: same object
          [] OTHER -> Undef
 
 CallVal(f, args) ==
